@@ -21,7 +21,7 @@ RULE = ('source port trees to depth 3 over names {a, ab, abc, b, x} (so names ar
         'selects a strict subset')
 RULE += ('; also: empty namespaces, a reused options dictionary, targets below existing namespaces, a second narrower exposure of the same class, a destination port under the name of an excluded source port')
 ASSUMPTIONS = ['an empty include list is treated by the code as "no filter" and is outside the quantifier', 'reference model written from the property statement']
-REQUIRED = ['path_lookups', 'deep_path_lookups', 'exposes', 'include_cases', 'exclude_cases', 'prefix_sibling_cases', 'nested_rule_cases', 'attr_checks', 'mutation_probes', 'both_rejected',
+REQUIRED = ['other_separator', 'deep_targets', 'path_lookups', 'deep_path_lookups', 'exposes', 'include_cases', 'exclude_cases', 'prefix_sibling_cases', 'nested_rule_cases', 'attr_checks', 'mutation_probes', 'both_rejected',
             'namespace_option_cases', 'preexisting_kept', 'options_reused', 're_exposures', 'own_port_under_excluded_name', 'renamed_source_ports']
 BOUNDS = {'quick': '40 trees x all single rules and pairs', 'thorough': '600 trees, rule sets up to 3'}
 NAMES = ['a', 'ab', 'abc', 'b', 'x']
@@ -110,15 +110,38 @@ def _kw(attrs):
     return kw
 
 
+class SlashNamespace(PortNamespace):
+    """An application's namespace class that separates the levels of a path with '/'."""
+    NAMESPACE_SEPARATOR = '/'
+
+
+class SlashSpec(ProcessSpec):
+    PORT_NAMESPACE_TYPE = SlashNamespace
+
+
+class TaggedInputPort(InputPort):
+    """An application's own port class with a setting of its own that is a mutable object (a list of tags)."""
+
+    def __init__(self, *args, **kwargs):
+        super().__init__(*args, **kwargs)
+        self.tags = ['declared']
+
+
+class TaggedOutputPort(OutputPort):
+    def __init__(self, *args, **kwargs):
+        super().__init__(*args, **kwargs)
+        self.tags = ['declared']
+
+
 def build(ns, tree, kind, renamed=False):
     for k, (name, d) in enumerate(tree.items()):
         # (renamed: the first entry of every level was declared under another name and moved -- ``ns[new] = ns.pop(old)`` -- so the
         # key it is found under differs from the name the port object carries)
         made = 'was_' + name if renamed and k == 0 else name
         if d[0] == 'port':
-            ns[made] = (InputPort if kind == 'in' else OutputPort)(made, **_kw(d[1]))
+            ns[made] = (TaggedInputPort if kind == 'in' else TaggedOutputPort)(made, **_kw(d[1]))
         else:
-            sub = PortNamespace(made, **_kw(d[1]))
+            sub = type(ns)(made, **_kw(d[1])) if isinstance(ns, SlashNamespace) else PortNamespace(made, **_kw(d[1]))
             ns[made] = sub
             build(sub, d[2], kind, renamed)
         if made != name:
@@ -148,14 +171,14 @@ def gen_cases(tier, seed):
         top_attrs = _rand_ns_attrs(rng)
         for rs in rulesets:
             for mode in ('include', 'exclude'):
-                target = rng.choice([None, None, 'tn', 'tn.sub', 'ab', 'emp.sub', 'keep.sub'])
+                target = rng.choice([None, None, 'tn', 'tn.sub', 'ab', 'emp.sub', 'keep.sub', 'tn.sub.deep'])
                 opts = {}
                 if rng.random() < 0.4:
                     opts = rng.choice([{'help': 'override'}, {'required': False}, {'dynamic': True}, {'populate_defaults': False},
                                        {'required': False, 'help': 'o2', 'valid_type': 'str'}, {'default': '@UNSPEC'}, {'default': {'other': 2}, 'help': 'o3'}])
                 pre = rng.random() < 0.6
                 yield {'kind': kind, 'tree': tree, 'top': top_attrs, 'mode': mode, 'rules': rs, 'target': target, 'options': opts, 'pre': pre,
-                       'renamed': t % 3 == 1}
+                       'renamed': t % 3 == 1, 'slash': t % 4 == 3}
         # include together with exclude is rejected
         yield {'kind': kind, 'tree': tree, 'top': top_attrs, 'mode': 'both', 'rules': [allp[0]], 'target': None, 'options': {}, 'pre': False}
 
@@ -199,7 +222,8 @@ def describe(ns):
 
 
 def _port_attrs(port):
-    a = {'required': port.required, 'valid_type': port.valid_type, 'help': port.help, 'validator': port.validator, 'name': port.name}
+    a = {'required': port.required, 'valid_type': port.valid_type, 'help': port.help, 'validator': port.validator, 'name': port.name,
+         'tags': list(getattr(port, 'tags', ()))}
     if isinstance(port, InputPort):
         a['default'] = port.default if port.has_default() else UNSPECIFIED
         a['has_default'] = port.has_default()
@@ -249,19 +273,26 @@ class _Src:
 def run_case(case):
     V = judges.V
     kind = case['kind']
-    src_spec = ProcessSpec()
+    slash = bool(case.get('slash'))
+    sep = '/' if slash else '.'
+
+    def P(path):
+        # (paths are written with '.' in the cases and in the model; the specs of a 'slash' case separate levels with '/')
+        return path.replace('.', sep) if isinstance(path, str) else path
+
+    src_spec = SlashSpec() if slash else ProcessSpec()
     src_root = src_spec.inputs if kind == 'in' else src_spec.outputs
     for k, v in _kw(case['top']).items():
         setattr(src_root, k, v)
     build(src_root, case['tree'], kind, renamed=bool(case.get('renamed')))
     src_cls = type('Src', (_Src,), {'_spec': src_spec})
-    dest = ProcessSpec()
+    dest = SlashSpec() if slash else ProcessSpec()
     droot = dest.inputs if kind == 'in' else dest.outputs
     if case['pre']:
         (dest.input if kind == 'in' else dest.output)('pre_existing', help='mine')
-        (dest.input if kind == 'in' else dest.output)('keep.me', required=False)
+        (dest.input if kind == 'in' else dest.output)(P('keep.me'), required=False)
         # a namespace of the destination's own that has no ports yet, with properties that are not the defaults
-        droot['emp'] = PortNamespace('emp', dynamic=True, help='mine-emp', required=False)
+        droot['emp'] = type(droot)('emp', dynamic=True, help='mine-emp', required=False)
     emp_before = droot['emp'] if case['pre'] else None
     own_excluded = []
     if case['pre'] and case['mode'] == 'exclude' and not case['target']:
@@ -274,19 +305,19 @@ def run_case(case):
     pre_desc = describe(droot)
     expose = dest.expose_inputs if kind == 'in' else dest.expose_outputs
     obs = {'exposes': 1, 'include_cases': 0, 'exclude_cases': 0, 'prefix_sibling_cases': 0, 'nested_rule_cases': 0, 'attr_checks': 0,
-           'renamed_source_ports': int(bool(case.get('renamed'))), 'mutation_probes': 0, 'both_rejected': 0, 'namespace_option_cases': 0, 'preexisting_kept': 0, 'options_reused': 0}
+           'renamed_source_ports': int(bool(case.get('renamed'))), 'other_separator': int(slash), 'deep_targets': int(str(case.get('target') or '').count('.') >= 2), 'mutation_probes': 0, 'both_rejected': 0, 'namespace_option_cases': 0, 'preexisting_kept': 0, 'options_reused': 0}
     viol = []
     mode, rules = case['mode'], case['rules']
     shape = '%s:%s' % (mode, kind)
     if mode == 'both':
         try:
-            expose(src_cls, include=rules, exclude=rules)
+            expose(src_cls, include=[P(r) for r in rules], exclude=[P(r) for r in rules])
             viol.append(V('both-accepted', 'both-accepted:' + kind, 'include together with exclude was accepted'))
         except ValueError:
             obs['both_rejected'] = 1
         return {'viol': viol, 'obs': obs, 'key': case, 'nontrivial': True, 'sample': {'mode': 'both', 'rules': rules}}
     opts = _kw(case['options'])
-    kwargs = {mode: list(rules), 'namespace': case['target']}
+    kwargs = {mode: [P(r) for r in rules], 'namespace': P(case['target'])}
     if opts:
         kwargs['namespace_options'] = dict(opts)
         obs['namespace_option_cases'] = 1
@@ -310,7 +341,7 @@ def run_case(case):
     target_ns = droot
     if case['target']:
         try:
-            target_ns = droot.get_port(case['target'])
+            target_ns = droot.get_port(P(case['target']))
         except ValueError:
             viol.append(V('target-missing', 'target-missing:' + shape, 'target namespace %s not created' % case['target']))
             return {'viol': viol, 'obs': obs, 'key': case, 'nontrivial': True}
@@ -362,7 +393,7 @@ def run_case(case):
         narrower = [sorted(r for r in rules if '.' not in r)[0]]
         before_again = describe(target_ns)
         try:
-            expose(src_cls, include=narrower, namespace=case['target'])
+            expose(src_cls, include=narrower, namespace=P(case['target']))
             obs['re_exposures'] = 1
             after_again = describe(target_ns)
             lost = _names(before_again) - _names(after_again)
@@ -415,7 +446,7 @@ def run_case(case):
     for n, path in enumerate(sorted(p for p in (exp_names & real_names) if '.' in p)):
         order = (src_root, target_ns) if n % 2 == 0 else (target_ns, src_root)
         try:
-            found = {id(root): root.get_port(path, create_dynamically=False) for root in order}
+            found = {id(root): root.get_port(P(path), create_dynamically=False) for root in order}
         except ValueError:
             continue
         stored = target_ns
@@ -451,6 +482,8 @@ def _mutate(ns, tag='src'):
     """Change every attribute of every port / namespace below ``ns``, add a port and delete one at each level."""
     for name, port in list(ns.items()):
         port.help = '%s-mutated' % tag
+        if hasattr(port, 'tags'):
+            port.tags.append(tag)  # (a setting that is changed in place, not assigned)
         port.required = not port.required
         port.validator = v_ns if port.validator is not v_ns else v_pos
         if isinstance(port, PortNamespace):
